@@ -22,17 +22,21 @@
      nodes/composite Composite.__getstate__/__setstate__   connections among children as label pairs, data
                                                 restored in REVERSED order, signals in stored order
                      Composite.process_run_result / _parse_remotely_executed_self / _get_state_from_remote_other
-     nodes/macro     Macro._parse_remotely_executed_self   (local connection lists grafted onto the FRESH IO
-                                                channels, neighbours re-pointed), __setstate__ re-forges value links
-     nodes/for_loop  For: Composite's variant (no grafting), static IO like a macro
+                                                (for EVERY composite: executor, _parent and the detached path stay
+                                                local; the local connection lists are grafted onto the FRESH IO
+                                                channels of the panels the object holds itself, which are re-owned,
+                                                the neighbours re-pointed, value links across the boundary re-forged)
+     nodes/macro     Macro.__setstate__         re-forges the value links to the children
+     nodes/for_loop  For                        static IO like a macro, same merge
 
    The state is a HEAP of node and channel objects with identities (nat): "the neighbour points at the live
    channel object" and "the channel is owned by the node" are statements about identities.  A pickle round
    trip allocates fresh identities; both sides of the boundary live in the same heap and never share an id.
 
    Not modelled (by construction of the scenarios): type hints, the cache (fresh graphs / use_cache off on the
-   driven node), manual execution flow, failures inside a locally run composite, and what pickle does with a
-   node whose channels are owned by another object (a merged macro that is submitted again). *)
+   driven node), manual execution flow, failures inside a locally run composite, the construction of a For
+   node's body.  Mode [Unpatched] additionally leaves out what pickle does with a node whose channels are
+   owned by another object. *)
 From PW Require Import Base.
 
 (* ------------------------------------------------------------------ vocabulary *)
@@ -40,7 +44,10 @@ Inductive panel := PIn | POut | SIn | SOut.
 Inductive lfun := FLin | FChk | FChkx | FId.
 Inductive nkind := KLeaf (f : lfun) | KMacro | KWf | KFor.
 Inductive exset := ExNone | ExInst (i : nat) | ExInstr (i : nat).   (* executor setting: live instance / instructions *)
-Inductive mmode := AsWritten | Repaired.                             (* merge discipline: the code as it is / patched *)
+(* merge discipline: [AsWritten] = the code as it is since the fix of Composite._parse_remotely_executed_self
+   (grafting for every composite, fresh channels re-owned, local detached path kept, value links across the
+   boundary re-forged); [Unpatched] = the code before that fix, kept so that the regression stays expressible *)
+Inductive mmode := Unpatched | AsWritten.
 
 Record chan := mkChan { c_owner : nat; c_label : string; c_panel : panel; c_conns : list nat;
                         c_val : option Z; c_recv : option nat }.
@@ -395,7 +402,7 @@ Definition merge_remote (mode : mmode) (h : heap) (i c2 : nat) : heap :=
   let starting := map (fun s => n_label (nd h2 s)) (n_starting o) in
   let lin_ := if has_links (n_kind o) then match links_in h2 (chans_of h2 c2 PIn) with Some l => l | None => [] end else [] in
   let lout := if has_links (n_kind o) then links_out h2 (n_children o) else [] in
-  let det := match mode with AsWritten => n_detached o | Repaired => n_detached n end in
+  let det := match mode with Unpatched => n_detached o | AsWritten => n_detached n end in
   (* self.__dict__.update(state): children, IO panels, flags, label, detached path come from the copy *)
   let kids := n_children o in
   let h3 := setn h2 i (mkNode (n_label o) (n_kind n) (n_parent n) det (n_exec n) (n_running o) (n_failed o)
@@ -406,12 +413,12 @@ Definition merge_remote (mode : mmode) (h : heap) (i c2 : nat) : heap :=
   let h6 := if has_links (n_kind n) then forge_links h5 i lin_ lout else h5 in
   let h7 := match n_kind n, mode with
             | KMacro, _ => fold_left (fun h o => graft_one h i o) local h6
-            | _, Repaired => fold_left (fun h o => graft_one h i o) local h6
-            | _, AsWritten => h6
+            | _, AsWritten => fold_left (fun h o => graft_one h i o) local h6
+            | _, Unpatched => h6
             end in
   match mode with
-  | AsWritten => h7
-  | Repaired =>
+  | Unpatched => h7
+  | AsWritten =>
       let h8 := fold_left (fun h c => setc h c (c_with_owner (ch h c) i)) (n_chans (nd h7 i)) h7 in
       fold_left (fun h o => relink_one h i o) local h8
   end.
